@@ -165,8 +165,8 @@ def _is_zero(v):
     if isinstance(v, Form):
         if v.is_zero():
             return True
-        a = v.single_atom()
-        return a is not None and a[0] == "fn" and a[1] in ("zeros_like", "zeros")
+        # every monomial carries a zeros()/zeros_like() factor
+        return all(any(a[0] == "fn" and a[1] in ("zeros_like", "zeros") and e > 0 for a, e in m) for m in v.terms)
     return False
 
 
